@@ -1,0 +1,6 @@
+//go:build verif
+
+// Verification hook (build tag "verif"): exported alias of the file replacement step.
+package resolvconf
+
+func VerifUpdate(buf []byte) error { return update(buf) }
